@@ -10,7 +10,7 @@ import (
 	"verif/harness/simkit"
 )
 
-var c27Tenants = []string{"team-a", "team-b", "prod-1", "a", "ab", "abc", "team-*", "default-tenant", "prod-12", "b1"}
+var c27Tenants = []string{"team-a", "team-b", "prod-1", "a", "ab", "abc", "team-*", "default-tenant", "prod-12", "b1", "prod-[0-9]", "[ab]*"}
 var c27Globs = []string{"team-*", "*-1", "a?", "a*", "[ab]*", "prod-[0-9]", "*b*", "?", "team-a", "prod-1?", "*"}
 
 // runC27: tenant -> hashring routing of the multi-hashring. Every hashring entry has its own,
